@@ -1,6 +1,7 @@
 package main
 
 import (
+	"encoding/binary"
 	"strconv"
 
 	"verifharness/lib"
@@ -232,6 +233,37 @@ func genC17(rec *lib.Rec, r *lib.Rng, thorough bool) {
 		rec.Op("S", "read equal "+pb+" "+a+sh(), true)
 		// perturbed vs relayout
 		rec.Op("S", "read equal "+pb+" "+wb+sh(), true)
+		// a relayout that is then perturbed (e.g. a non-zero byte beside the value in an upgraded list's element)
+		w2, kind2 := perturb(r, w)
+		res = rec.Op("S", "read equal "+a+" "+segsStr(encodeRandom(r, w2))+sh(), true)
+		rec.Count("perturbed-relayout " + kind2 + " " + res)
+		// two pointers of one message
+		pair := func(x, y *Val) *Val { return &Val{Kind: vStruct, Data: nil, Ptrs: []*Val{x, y}} }
+		switch i % 3 {
+		case 0:
+			rec.Op("S", "read equalin "+segsStr(encodeRandom(r, pair(v, clone(w)))), true)
+		case 1:
+			rec.Op("S", "read equalin "+segsStr(encodeRandom(r, pair(v, p))), true)
+		default:
+			if s := aliasedViews(r, v); s != "" {
+				rec.Op("S", "read equalin "+s, true)
+				rec.Count("aliased-views")
+			}
+		}
+		if i%4 == 0 {
+			// capability identity inside one message: nil table entries, indices outside the table (symmetry only)
+			c1, c2 := clone(v), clone(v)
+			for _, t := range []*Val{c1, c2} {
+				var ns []*Val
+				nodes(t, &ns)
+				for _, nd := range ns {
+					if nd.Kind == vCap || (nd.Kind == vNull && r.Chance(1, 6)) {
+						nd.Kind, nd.Cap = vCap, uint32(r.Intn(11))
+					}
+				}
+			}
+			rec.Op("S", "read equalsym "+segsStr(encodeRandom(r, pair(c1, c2)))+" "+strconv.Itoa(r.Pick(0, 4, 8, 8))+" "+strconv.Itoa(r.Intn(256)), true)
+		}
 		// unrelated
 		if i%5 == 0 {
 			b2 := 3 + r.Intn(10)
@@ -245,6 +277,63 @@ func genC17(rec *lib.Rec, r *lib.Rng, thorough bool) {
 		}
 	}
 	_ = strconv.Itoa
+}
+
+// aliasedViews: a single-segment message whose root has two pointer fields; field 0 points at a struct, field 1 is a
+// second struct pointer to the same address with a smaller (possibly empty) shape.
+func aliasedViews(r *lib.Rng, v *Val) string {
+	if v.Kind != vStruct || len(v.Data) < 8 {
+		b := 4
+		v = genStruct(r, 2, &b, 1+r.Intn(2), r.Intn(2))
+		var all []*Val
+		nodes(v, &all)
+		for _, nd := range all {
+			nd.Cap %= 8
+		}
+	}
+	root := &Val{Kind: vStruct, Ptrs: []*Val{v, {Kind: vNull}}}
+	segs := Encode(r, root, 1, 0, 0, false)
+	if len(segs) != 1 || len(segs[0]) < 16 {
+		return ""
+	}
+	s := segs[0]
+	word := func(i int) uint64 { return binary.LittleEndian.Uint64(s[8*i:]) }
+	w0 := word(0)
+	if w0&3 != 0 {
+		return ""
+	}
+	start := 1 + int(int32(uint32(w0))>>2)
+	ds, pc := int(w0>>32&0xffff), int(w0>>48&0xffff)
+	if pc != 2 || start < 0 || 8*(start+ds+2) > len(s) {
+		return ""
+	}
+	p0 := word(start + ds)
+	if p0 == 0 || p0&3 != 0 {
+		return ""
+	}
+	off := int(int32(uint32(p0)) >> 2)
+	tds, tpc := int(p0>>32&0xffff), int(p0>>48&0xffff)
+	nds, npc := tds, tpc
+	switch r.Intn(4) {
+	case 0:
+		nds, npc = 0, 0
+	case 1:
+		if nds > 0 {
+			nds--
+		}
+	case 2:
+		npc = 0
+	}
+	if npc != tpc && nds != tds {
+		// (pointer slots start after the data words: a shorter data section moves them)
+		npc = 0
+	}
+	if nds != tds {
+		npc = 0
+	}
+	p1 := uint64(uint32(int32(off-1)<<2)) | uint64(nds)<<32 | uint64(npc)<<48
+	binary.LittleEndian.PutUint64(s[8*(start+ds+1):], p1)
+	return segsStr(segs)
 }
 
 // stripCaps replaces capabilities by nulls (Canonicalize rejects them) except with small probability.
@@ -278,6 +367,26 @@ func genC18(rec *lib.Rec, r *lib.Rng, thorough bool) {
 		n = 150000
 	}
 	n /= Shards
+	if Shard == 0 {
+		// structs and list elements with more than 8192 data words (word indices and byte offsets past 16 bits), a single
+		// non-zero word at various places: the canonical size is decided by the last non-zero word
+		for _, k := range []int{0, 1, 8190, 8191, 8192, 8193, 8999} {
+			v := &Val{Kind: vStruct, Data: make([]byte, 8*9000)}
+			v.Data[8*k+r.Intn(8)] = byte(1 + r.Intn(255))
+			rec.Op("S", "read canon "+segsStr(Encode(r, v, 1, 0, 0, false)), true)
+			rec.Count("big-struct")
+		}
+		for _, k := range []int{0, 8192, 8199} {
+			l := &Val{Kind: vList, EK: 7, N: 2, DS: 8200, PC: 0}
+			for e := 0; e < 2; e++ {
+				l.Elems = append(l.Elems, &Val{Kind: vStruct, InList: true, Data: make([]byte, 8*8200)})
+			}
+			l.Elems[1].Data[8*k] = 0x5a
+			v := &Val{Kind: vStruct, Data: []byte{1, 0, 0, 0, 0, 0, 0, 0}, Ptrs: []*Val{l}}
+			rec.Op("S", "read canon "+segsStr(Encode(r, v, 1, 0, 0, false)), true)
+			rec.Count("big-element")
+		}
+	}
 	for i := 0; i < n; i++ {
 		b := 3 + r.Intn(30)
 		v := genStruct(r, 5, &b, r.Intn(4), r.Intn(4))
